@@ -197,17 +197,18 @@ class Structured(Generic[_ItemType]):
         depth-first iteration, however this is not guaranteed and should not
         be relied upon.
         """
-        for value in self._structure.values():
+
+        def flatten(value: Any) -> Generator[_ItemType, None, None]:
             if isinstance(value, Structured):
                 yield from value._flatten()
             elif isinstance(value, tuple):
                 for v in value:
-                    if isinstance(v, Structured):
-                        yield from v._flatten()
-                    else:
-                        yield v
+                    yield from flatten(v)
             else:
                 yield value
+
+        for value in self._structure.values():
+            yield from flatten(value)
 
     def _to_dict(self, recurse: bool = True) -> dict[Optional[str], Any]:
         """
